@@ -81,7 +81,7 @@ func (g *G) stmt(bd int) []hs.Stmt {
 		return []hs.Stmt{hs.ExprStmt{X: e}}
 	case r < 80 && bd > 0:
 		return g.loopStmt(bd, d)
-	case r < 84 && g.inLoop > 0:
+	case r < 84 && g.inLoop > 0 && !(g.inExpr > 0 && g.c.off("exit-pending")):
 		// guarded break / continue
 		var s hs.Stmt = hs.Break{}
 		name := "break"
@@ -91,7 +91,7 @@ func (g *G) stmt(bd int) []hs.Stmt {
 		}
 		g.feat(name)
 		return []hs.Stmt{hs.ExprStmt{X: &hs.If{Cond: g.expr(hs.TBool, d), Then: &hs.Block{Stmts: []hs.Stmt{s}, T: hs.TNull}, T: hs.TNull}}}
-	case r < 87 && g.retT != nil:
+	case r < 87 && g.retT != nil && !(g.inExpr > 0 && g.c.off("exit-pending")):
 		// guarded return
 		var rs hs.Stmt
 		if g.retT.K == hs.KNull {
